@@ -129,3 +129,6 @@ func VerifSessions(u *ActiveUser) map[uint32]*mux.Session {
 
 // VerifSessionValve: the valve a session meters into (must be its user's).
 func VerifSessionValve(s *mux.Session) mux.Valve { return s.Valve }
+
+// VerifWrapValve replaces the record's valve by a wrapper of it (sessions created afterwards meter into the wrapper).
+func VerifWrapValve(u *ActiveUser, wrap func(mux.Valve) mux.Valve) { u.valve = wrap(u.valve) }
